@@ -39,9 +39,9 @@ class SimulationAlgorithm3DBase
     std::uniform_real_distribution<double> uiud;     // floating point uniform distribution in [0,1[
     std::vector<int> boundary_conditions;            // see Init arguments
 
-    int Poisson(double lambda)
+    long long Poisson(double lambda)
         {
-        return std::poisson_distribution<int>(lambda)(rng);
+        return std::poisson_distribution<long long>(lambda)(rng);
         }
 
     bool AreNeighbors(int i, int j)
